@@ -20,6 +20,8 @@ def undescribe(v):
                 return PO.Sized(a['size'], tags=a['_tags'], rate=a['rate'], verbose=a['verbose'], extra=a['extra'])
             if n == 'Marker':
                 return PO.Marker()
+            if n == 'Loc':
+                return PO.Loc(a['_root'])
             raise ValueError(n)
         return {k: undescribe(x) for k, x in v.items()}
     if isinstance(v, list):
